@@ -21,7 +21,9 @@ RULE = (
     "order with repeated classes and batch sizes 1-3, list / RoundRobinScheduler / RLScheduler (one session), all built-in "
     "losses with options, ensemble 1-3, calibrator seed, 1-6 batches; thorough up to 10) run once as base (n_jobs=1, quiet, "
     "no folder, constructor seeds from the descriptor) and again as variants: n_jobs 2 and 4, verbose, saving folder, "
-    "different / None sampler-constructor seeds, and a twin in a fresh process. Oracle: dtype/shape/bytes equality of the "
+    "different / None sampler-constructor seeds, and twins in fresh processes (each with its own PYTHONHASHSEED, one after an "
+    "unrelated calibration). Model kinds: plain witness, one that sorts its parameter argument in place, one returning inf / "
+    "1e300-sized values (non-finite losses; always with the saving-folder variant), one whose run time varies per task. Oracle: dtype/shape/bytes equality of the "
     "five history arrays and of both returned arrays. Non-trivial = >=2 sampler classes or a stateful/stochastic sampler, "
     ">=2 batches and a variant differing in n_jobs or constructor seeds; distinct by configuration hash."
 )
@@ -30,7 +32,7 @@ ASSUMPTIONS = [
     "fresh sampler objects per run; reuse of an already used sampler object is outside the statement",
     "a run that ends in a third-party exception must end identically in every variant",
 ]
-REQUIRED_COUNTERS = {"models_mutating_their_argument": 5, "base_runs": 30, "variant_njobs": 20, "variant_ctor_seeds": 20, "variant_verbose": 8, "variant_folder": 8,
+REQUIRED_COUNTERS = {"models_mutating_their_argument": 5, "models_returning_nonfinite_or_huge": 3, "models_with_uneven_run_time": 2, "base_runs": 30, "variant_njobs": 20, "variant_ctor_seeds": 20, "variant_verbose": 8, "variant_folder": 8,
                      "variant_fresh_process": 10, "rl_runs": 4}
 SHARDS = {"quick": 16, "thorough": 16}
 SHARD_WATCHDOG = {"quick": 1500, "thorough": 10800}
@@ -59,10 +61,12 @@ def compare(a, b):
     return d
 
 
-def fresh_process(cfg, calls, ctx, prelude=None):
+def fresh_process(cfg, calls, ctx, prelude=None, hashseed=1):
     d = ctx.scratch()
     (d / "job.json").write_text(json.dumps({"cfg": cfg, "calls": calls, "prelude": prelude}))
     env = dict(os.environ)
+    # string hashing differs from process to process in real use: give every twin its own hash seed, never the parent's
+    env["PYTHONHASHSEED"] = str(hashseed)
     try:
         subprocess.run([sys.executable, "-m", "vlib.runcfg", str(d / "job.json"), str(d / "out.npz")], env=env, timeout=300, check=True,  # noqa: S603
                        stdout=subprocess.DEVNULL, stderr=subprocess.PIPE)
@@ -85,8 +89,15 @@ def run_case(desc, ctx):
     rl = i % 6 == 1
     kinds = None if heavy else G.CHEAP + ["XGBoost"]
     mutating = i % 5 == 2   # the user's model rearranges its parameter array in place
+    extreme = i % 7 == 3 and not mutating    # the model returns inf / 1e300-sized values: non-finite losses enter the history
+    slow = i % 9 == 4 and not mutating and not extreme   # task run time varies: parallel tasks finish out of submission order
+    mkind = "mut" if mutating else (str(rng.choice(["inf", "huge"])) if extreme else ("slow" if slow else "plain"))
     cfg = CG.gen_config(rng, kinds=kinds, scheduler="rl" if rl else None, n_samplers=int(rng.integers(1, 6)), max_bs=3,
-                        model="mut" if mutating else "plain", params=int(rng.integers(2, 5)) if mutating else None)
+                        model=mkind, params=int(rng.integers(2, 5)) if mutating else None)
+    if extreme:
+        c["models_returning_nonfinite_or_huge"] = 1
+    if slow:
+        c["models_with_uneven_run_time"] = 1
     if mutating:
         c["models_mutating_their_argument"] = 1
     if heavy:  # force a given class into a given position so that every class meets every role over a run of cases
@@ -117,7 +128,7 @@ def run_case(desc, ctx):
         variants.append(("ctor_seeds_none", {"ctor_seed_shift": None}))
     if i % 4 == 1:
         variants.append(("verbose", {"verbose": True}))
-    if i % 4 == 2 and not rl:
+    if (i % 4 == 2 or extreme) and not rl:
         variants.append(("folder", {"folder": str(ctx.scratch() / "ck")}))
     for name, kw in variants:
         r = run(cfg, calls, **kw)
@@ -134,8 +145,8 @@ def run_case(desc, ctx):
         prng = rng_for(desc["seed"], 1, 10**6 + i)
         prelude = CG.gen_config(prng, kinds=G.CHEAP, n_samplers=4, max_bs=2, params=max(1, min(2, cfg["P"] - 1)), loss_kinds=["minkowski", "msm"])
         prelude["lineup"][0]["kind"] = "Halton"
-        for name, pre in (("fresh_process", None), ("fresh_process_after_unrelated_run", prelude)):
-            r = fresh_process(cfg, calls, ctx, pre)
+        for k, (name, pre) in enumerate((("fresh_process", None), ("fresh_process_after_unrelated_run", prelude))):
+            r = fresh_process(cfg, calls, ctx, pre, hashseed=1 + (i * 7919 + 104729 * k + desc["seed"]) % 4000000)
             if r is None:
                 c["fresh_process_timeout"] = c.get("fresh_process_timeout", 0) + 1
                 continue
